@@ -26,7 +26,7 @@ func init() {
 	Recorders["runner"] = recordRunner
 	// host function values project by name in recorded traces
 	h := &HostLog{}
-	for _, n := range []string{"rec", "id", "fail", "failv", "recs", "add2", "cat"} {
+	for _, n := range []string{"rec", "id", "fail", "failv", "recs", "add2", "cat", "crec", "cstr"} {
 		f, _ := h.Func(n)
 		proj.FuncNames[reflect.ValueOf(f).Pointer()] = n
 	}
